@@ -306,6 +306,7 @@ Definition ustep_ok (u : ucase) (cf : bool) (o : cop) (ts : list Z) : bool :=
   match o with
   | CSingle i k => forallb (touch_ok u cf (Some i) (Some [k])) ts && covered ts k
   | CDel i ks => forallb (touch_ok u cf (Some i) (Some ks)) ts && forallb (covered ts) ks
+  | CDelX i ks => forallb (touch_ok u cf (Some i) (Some ks)) ts
   | CTick => forallb (touch_ok u cf None None) ts
   | _ => match ts with [] => true | _ => false end
   end.
